@@ -454,17 +454,52 @@ def family_affprod():
         yield ('affprod %s reified' % nm, Model(V3, lcons=[('or', ('ge', e, N(2)), ('ge', B, N(1)))], obj=('min', None, {0: 1.0, 1: 1.0, 2: 1.0})))
 
 
+def family_alg3(tier='thorough'):
+    """arithmetic chains of depth 3: every (parent, child, grandchild) over the algebraic templates, the grandchild over
+    the leaves x, y / x, b; expression canonicalisation (constant folding, multiplying out, term merging) sees products of
+    sums, constants times quadratics plus constants, squares of affine expressions, ..."""
+    U = [('neg', lambda e: ('neg', e)), ('pow2', lambda e: ('pow2', e)), ('*-2', lambda e: ('mul', N(-2), e)), ('*3r', lambda e: ('mul', e, N(3))),
+         ('/2', lambda e: ('div', e, N(2))), ('+1.5', lambda e: ('add', e, N(1.5))), ('2-', lambda e: ('sub', N(2), e)),
+         ('+y', lambda e: ('add', e, Y)), ('*b', lambda e: ('mul', e, B)), ('x*', lambda e: ('mul', X, e))]
+    G = [('x*b', ('mul', X, B)), ('x+y', ('add', X, Y)), ('x', X)]
+    seen = set()
+    for pn, pf in U:
+        for cn, cf in U:
+            for gn, g in G:
+                e = pf(cf(g))
+                deg = _degree(e)
+                if deg > 2 or e in seen: continue        # the exact fragment is linear / quadratic algebra
+                seen.add(e)
+                name = 'alg3 %s(%s(%s))' % (pn, cn, gn)
+                yield ('con %s <= 1' % name, Model(V3, acons=[(e, {}, -INF, 1.0)]))
+                if tier != 'quick':
+                    yield ('con %s == 1' % name, Model(V3, acons=[(e, {}, 1.0, 1.0)]))
+                    yield ('min %s' % name, Model(V3, acons=[(None, {0: 1.0, 1: 1.0}, -INF, 3.0)], obj=('min', e, {})))
+
+
+def _degree(e):
+    k = e[0]
+    if k == 'n': return 0
+    if k == 'v': return 1
+    if k in ('neg',): return _degree(e[1])
+    if k == 'pow2': return 2 * _degree(e[1])
+    if k in ('add', 'sub'): return max(_degree(e[1]), _degree(e[2]))
+    if k == 'mul': return _degree(e[1]) + _degree(e[2])
+    if k == 'div': return _degree(e[1]) if _degree(e[2]) == 0 else 99
+    return 99
+
+
 FAMILIES = {
     'shapes': family_shapes, 'sharing': family_sharing, 'canon': family_canon, 'uenc': family_uenc,
     'bounds': family_bounds, 'linmix': family_linear_mix, 'alldiffcont': family_alldiff_cont,
     'compl': family_compl, 'sos': family_sos, 'dvars': family_dvars, 'fracint': family_fracint,
-    'cones': family_cones, 'pl': family_pl, 'affprod': family_affprod,
+    'cones': family_cones, 'pl': family_pl, 'affprod': family_affprod, 'alg3': family_alg3,
 }
 
 
 def all_models(tier, families=None):
     for fam, fn in FAMILIES.items():
         if families and fam not in families: continue
-        gen = fn(tier) if fam in ('shapes', 'pl') else fn()
+        gen = fn(tier) if fam in ('shapes', 'pl', 'alg3') else fn()
         for name, m in gen:
             yield fam, name, m
